@@ -148,6 +148,9 @@ def step (d : DState) (f : List String) : DState × String :=
     let p := paramsOf f
     let d' : DState := { st := init p, nActors := kvN f "actors", nRollapps := kvN f "rollapps" }
     (d', render d'.st "ok" d'.nActors)
+  | "pkg" :: _ =>
+    -- C18: another package's history ran in a sub-process (its own model is checked by its own check)
+    (d, "ok")
   | "reimport" :: _ =>
     -- C18: genesis export followed by import into a fresh chain; everything continues on the imported state
     let s' := reimport d.st
